@@ -30,7 +30,10 @@ type Obl struct {
 	Nontrivial bool    `json:"needed_path_or_flow_argument"`
 }
 
+type need struct{ rule, sub, why string }
+
 type Report struct {
+	needs     []need
 	Prop      string
 	Obls      []Obl
 	Info      []string          // information for the reviewer, never a verdict
@@ -80,6 +83,10 @@ func (r *Report) Check(ok bool, rule, fn, construct, pos, detail string) {
 }
 func (r *Report) Infof(f string, a ...interface{}) { r.Info = append(r.Info, fmt.Sprintf(f, a...)) }
 
+// Need asserts that the rule produced at least one obligation whose key contains sub (a vacuity guard by kind of
+// construct rather than by count, so that merging or splitting sites in a refactoring does not trip it).
+func (r *Report) Need(rule, sub, why string) { r.needs = append(r.needs, need{rule, sub, why}) }
+
 // known findings ---------------------------------------------------------------
 
 type knownFinding struct {
@@ -126,6 +133,17 @@ func (r *Report) Finish(c *Ctx, tier string, seed int, wall float64, verifDir, o
 		if counts[id] < r.MinCount[id] {
 			r.add(id, "-", "anchor-lost", "-", Undecided,
 				fmt.Sprintf("rule matched %d construct(s), at least %d were confirmed by hand on the reference tree: the anchor of this rule is lost", counts[id], r.MinCount[id]), true)
+		}
+	}
+	for _, nd := range r.needs {
+		found := false
+		for _, o := range r.Obls {
+			if o.Rule == nd.rule && strings.Contains(o.Key, nd.sub) {
+				found = true
+			}
+		}
+		if !found {
+			r.add(nd.rule, "-", "anchor-lost-"+nd.sub, "-", Undecided, "no obligation of kind `"+nd.sub+"` was produced: "+nd.why, true)
 		}
 	}
 	known, err := loadKnown(filepath.Join(verifDir, "known_findings.txt"))
